@@ -157,6 +157,7 @@ func (c *FloatCode) Filter(_ *FieldQuery) Code {
 type StringCode struct {
 	typ   *runtime.Type
 	isPtr bool
+	isKey bool // a map key: always a string literal
 }
 
 func (c *StringCode) Kind() CodeKind {
@@ -164,7 +165,7 @@ func (c *StringCode) Kind() CodeKind {
 }
 
 func (c *StringCode) ToOpcode(ctx *compileContext) Opcodes {
-	isJSONNumberType := c.typ == runtime.Type2RType(jsonNumberType)
+	isJSONNumberType := !c.isKey && c.typ == runtime.Type2RType(jsonNumberType)
 	var code *Opcode
 	if c.isPtr {
 		if isJSONNumberType {
